@@ -100,8 +100,9 @@ def signature(pid, mm, ev, proj):
         diag.append("aff<lo" if los and ev["reply"]["affected"] < min(los) else "aff>hi")
     if ev.get("_lastgen"):
         diag.append("lastgen=" + ev["_lastgen"])   # the kind of the last successful generating INSERT before LAST_INSERT_ID()
-    if ev.get("_alterlow"):
-        diag.append("alterlow")   # earlier in this history ALTER TABLE .. AUTO_INCREMENT = n named an n <= a stored id
+    # (ev["_alterlow"], the history saw ALTER TABLE .. AUTO_INCREMENT = n with n <= a stored id, is no longer
+    # part of the signature: the finding it classified is fixed and such ALTERs are now a regular part of the
+    # C20 histories, so the flag would only hide the signatures of the remaining open findings)
     if mm.get("binok"):
         diag.append("cionly")     # TLC: the outcome is the allowed one once key collations are taken as binary
     return "%s|%s|got=%s|exp=%s|%s|%s" % (pid, "+".join(proj), got_kind(ev), ",".join(exp_kinds(mm)), ",".join(diag), ",".join(ev.get("tags", [])))
